@@ -147,6 +147,17 @@ def may_set(sig, pos_prefix, kw_prefix, cur):
     return pos_slot()
 
 
+_PROJECT = []
+
+
+def _project():
+    if not _PROJECT:
+        d = boot.tmp_root() / "c11proj"
+        d.mkdir(exist_ok=True)
+        _PROJECT.append(boot.jedi_boot().Project(str(d)))
+    return _PROJECT[0]
+
+
 def check_cells(ctx, ps, flavour, maxprefix, doc=None, devs=None):
     jedi = boot.jedi_boot()
     src, obj_expr, call_expr = render_source(ps, flavour, doc)
@@ -190,8 +201,8 @@ def check_cells(ctx, ps, flavour, maxprefix, doc=None, devs=None):
                 code = src + call
                 col = len(call)
                 # every other cell is analysed under one constant path, as an editor re-analysing the same file does
-                bpath = str(boot.tmp_root() / "c11_buffer.py") if ctx.evaluations % 2 else None
-                script = boot.fresh_script(code, path=bpath)
+                bpath = str(boot.tmp_root() / "c11proj" / "c11_buffer.py") if ctx.evaluations % 4 == 1 else None
+                script = boot.fresh_script(code, path=bpath, project=_project())
                 ctx.count()
                 try:
                     sigs = script.get_signatures(line_no, col)
@@ -203,6 +214,9 @@ def check_cells(ctx, ps, flavour, maxprefix, doc=None, devs=None):
                     devs.append(("signature-count:%s" % flavour, "%s -> %d signatures" % (where, len(sigs))))
                     continue
                 g = sigs[0]
+                if not first and [(p.name, p.kind) for p in g.params] != wparams:
+                    devs.append(("params-differ-from-inspect:%s" % flavour, "%s jedi=%s inspect=%s" % (where, [(p.name, p.kind.name) for p in g.params], [(n, k.name) for n, k in wparams])))
+                    continue
                 if first:
                     first = False
                     got = [(p.name, p.kind) for p in g.params]
@@ -295,16 +309,20 @@ def shard(ctx):
     work = [(ps, fl) for ps in lists for fl in FLAVOURS]
     mine = work[ctx.shard::ctx.nshards]
     done = 0
+    prev_by_flavour = {}
     for ps, fl in mine:
         if ctx.out_of_time(0.75):
             ctx.extra["enumeration_cut_short_by_budget"] = 1
             break
-        case = {"ps": [[a, int(b), c, d] for a, b, c, d in ps], "flavour": fl, "doc": None, "maxprefix": MAXPREFIX[ctx.tier]}
+        case = {"ps": [[a, int(b), c, d] for a, b, c, d in ps], "flavour": fl, "doc": None, "maxprefix": MAXPREFIX[ctx.tier],
+                "prev": prev_by_flavour.get(fl)}   # the last group with the same call text (same buffer path): its history
+        prev = prev_by_flavour[fl] = {k: v for k, v in case.items() if k != "prev"}
         devs = []
         try:
             with core.time_limit(300):
                 mp = MAXPREFIX[ctx.tier] if len(ps) < MAXP[ctx.tier] else MAXPREFIX[ctx.tier] - 1
                 case["maxprefix"] = mp
+                prev["maxprefix"] = mp
                 check_cells(ctx, ps, fl, mp, None, devs)
             for sig, detail in devs:
                 ctx.judge(sig, detail, case)
@@ -320,6 +338,9 @@ def shard(ctx):
 
 
 def replay(ctx, case):
+    if case.get("prev"):
+        pv = case["prev"]
+        check_cells(ctx, [(a, inspect._ParameterKind(b), c, d) for a, b, c, d in pv["ps"]], pv["flavour"], pv.get("maxprefix", 1), pv.get("doc"), [])
     ps = [(a, inspect._ParameterKind(b), c, d) for a, b, c, d in case["ps"]]
     devs = []
     check_cells(ctx, ps, case["flavour"], case.get("maxprefix", 1), case.get("doc"), devs)
